@@ -235,6 +235,13 @@ def proof_stage(ctx, theorems, targets=None):
                 broken.append("theorem-missing: " + t)
             elif not set(ax) <= ALLOWED_AXIOMS:
                 broken.append("axioms: %s uses %s" % (t, sorted(set(ax) - ALLOWED_AXIOMS)))
+    if ok and ctx.tier == "thorough" and all(tmods.values()):
+        # independent re-check of the compiled modules that state this property's theorems (and, by replay, of what they import)
+        mods = sorted(set(tmods.values()))
+        rc, out = run(["lake", "env", "leanchecker"] + mods, cwd=LEAN, timeout=3000)
+        ctx.cov["leanchecker"] = {"modules": mods, "exit": rc, "tail": out[-300:]}
+        if rc != 0:
+            broken.append("leanchecker rejects %s: %s" % (", ".join(mods), out[-300:]))
     n = len(theorems)
     good = sum(1 for t in theorems if axioms.get(t) is not None and set(axioms[t]) <= ALLOWED_AXIOMS) if ok and not hits else 0
     ctx.cov["obligations"] = ctx.cov.get("obligations", 0) + n
